@@ -64,9 +64,13 @@ CLAIMS["C10"] = ("Proof-level (Kani, complete) for the fixed-size consensus type
     "versions x both NRD settings, whatever read accepts re-encodes byte-identically (unknown tags, non-zero reserved bytes, out-of-range heights refused); decode(encode(v)) == v for all values and versions; "
     "the hash-mode byte stream is version independent; Inputs hash-mode stream version independent; read_multi on an empty count (Verus); verify_sorted_and_unique. See the evidence for the full type list (chain, p2p, pow types). Full containers (bodies, blocks, segments) are not under contract.",
     KANI_TB + "KReader/KWriter model BinReader/BinWriter over slices.", "Kani complete harnesses on the real read/write functions", "6 C10")
-CLAIMS["C12"] = ("BOUNDED stand-in only (labelled bounded, not proved): cut_through on the real code removes exactly the matched spend pairs -- per commitment value min(cin, cout) pairs are cut, the "
-    "rest kept, failure iff a duplicate remains -- for all inputs with <= 3 inputs and <= 3 outputs over 8 commitment values. aggregate/deaggregate/hydration are not yet under contract.",
-    KANI_TB + "bounded: slice lengths <= 3.", "Kani bounded harness with an executable multiset oracle", "6 C12")
+CLAIMS["C12"] = ("Aggregation and cut-through, proof-level (Verus, extracted text, slices and transaction lists of ANY length): transaction::cut_through never indexes out of bounds or underflows; on Ok the returned inputs + cut inputs "
+    "are a permutation of the given inputs (same for outputs), the cut slices pair up by commitment, NO commitment remains on both sides, neither remaining side holds a duplicate; it fails ONLY when a duplicate remains after the cut. "
+    "transaction::aggregate returns a transaction whose kernels are exactly the concatenation of the operands' kernels, whose offset is the sum of their offsets and whose inputs/outputs are the cut_through result of the concatenated "
+    "inputs/outputs (the union minus exactly the matched spend pairs). Order/grouping independence follows from these multiset-level postconditions only up to the sort done by Transaction::new (assumed a permutation). "
+    "deaggregate, validity of the aggregate (needs the group equation of C01 plus libsecp256k1), compact-block conversion and hydration (thread-local random nonce, short ids via SipHash) are not decided.",
+    VERUS_TB + "slice::swap via assume_specification (documented behaviour), sort/dedup helpers assumed as stated in the unit header; elements are abstract with a ghost commitment key.",
+    "Verus contracts with a merge-state invariant and multiset lemmas on the extracted real functions", "6 C12")
 CLAIMS["C13"] = ('Proof-level (Verus, extracted text): with the feature on, an NRD kernel is refused iff the same excess has an index entry fewer than relative_height blocks below the block being applied, an accepted one is recorded, other variants are untouched (txhashset::apply_kernel_rules); NRDRelativeHeight accepts exactly 1..=10080 (Kani, all u64, in the C10 unit). Block::verify_kernel_lock_heights returns Ok iff no height-locked kernel has lock_height > block height, for any number of kernels (Verus loop invariant); BOUNDED stand-in (<= 3 kernels, Kani): NRD kernels need the flag and header version >= 4, body lock_height == max. Coinbase maturity (iterator chain over LMDB lookups), per-fork maintenance of the NRD index during rewind and the pool path are not decided.',
     VERUS_TB + KANI_TB + "the NRD index is an uninterpreted most-recent-entry function.",
     'Verus contract on the extracted NRD rule + Kani bounded harness for block lock heights', "6 C13")
@@ -110,9 +114,6 @@ NOT_APPLICABLE = {
     "C17": "quantifies over thread schedules; Kani has no thread support and Verus needs its own permission-typed primitives that grin's RwLock/LMDB code does not use (DESIGN 7)",
     "C18": "atomicity/isolation/durability are implemented by LMDB (C via FFI), the resize gate is cross-thread and its threshold floating point; out of reach of both back ends (DESIGN 7)",
 }
-NOT_APPLICABLE["C12"] = ("no unit of this property could be brought within reach: Kani cannot execute the slice sorting inside cut_through/aggregate in reasonable time "
-    "(sorting three 33-byte commitments did not finish in 15 minutes), CompactBlock::from draws a thread-local random nonce, and a Verus proof of cut_through needs &mut-slice swaps/split_at_mut that the "
-    "extraction table does not cover; the bounded harness is kept under units/_disabled/C12 and is not claimed")
 NOT_BUILT = "not built yet: no unit of this property is finished in the current commit (see DESIGN 6 for the plan)"
 
 
